@@ -21,7 +21,55 @@ fn gen(rng: &mut Rng, _i: usize) -> Case {
     let iters = rng.range(1, 3);
     let timestamped = rng.chance(3, 4);
     let mut val = 0i64;
-    for _ in 0..iters {
+    // batches queued in a row (over iteration boundaries too); the channel holds CHANNEL_CAPACITY = 16
+    // batches and the Terminate tail may queue up to 5 more
+    let mut qrun = 0;
+    for it in 0..iters {
+        if n >= 2 && timestamped && it == 0 && rng.chance(1, 5) {
+            // hand-off scenario: every replica has announced a watermark, the replica holding the minimum
+            // ends its iteration (the frontier rises: a pending announcement), then — without a receive
+            // timeout in between or with one, at random — watermarks of replicas that do not hold the new
+            // minimum, then a data element
+            let base = rng.range(-3, 50);
+            let mut w: Vec<i64> = (0..n as i64).map(|r| base + 5 * r + rng.range(0, 3)).collect();
+            for i in (1..n).rev() {
+                let j = rng.below(i as u64 + 1) as usize;
+                w.swap(i, j);
+            }
+            let opk = |rng: &mut Rng| if rng.chance(3, 4) { "q" } else { "b" }.to_string();
+            for r in 0..n {
+                c.ops(vec!["b".into(), r.to_string(), format!("W:{}", w[r])]);
+            }
+            let m = (0..n).min_by_key(|&r| w[r]).unwrap();
+            c.ops(vec![opk(rng), m.to_string(), "FAR".into()]);
+            let rest: Vec<usize> = (0..n).filter(|&r| r != m).collect();
+            let m2 = *rest.iter().min_by_key(|&&r| w[r]).unwrap();
+            for _ in 0..rng.range(0, 2) {
+                let cand: Vec<usize> = rest.iter().cloned().filter(|&r| r != m2).collect();
+                if cand.is_empty() {
+                    break;
+                }
+                let r = *rng.pick(&cand);
+                w[r] += rng.range(1, 4);
+                c.ops(vec![opk(rng), r.to_string(), format!("W:{}", w[r])]);
+            }
+            let r = *rng.pick(&rest);
+            val += 1;
+            c.ops(vec!["b".into(), r.to_string(), format!("T:{val}:{}", w[r] + 1 + rng.range(0, 3))]);
+            for &r in &rest {
+                let mut o = vec![opk(rng), r.to_string()];
+                if rng.chance(1, 2) {
+                    w[r] += 10;
+                    o.push(format!("W:{}", w[r]));
+                }
+                o.push("FAR".into());
+                c.ops(o);
+            }
+            if let Some(last) = c.ops.last_mut() {
+                last[0] = "b".into();
+            }
+            continue;
+        }
         // per replica: pending list of elements for this iteration
         let mut links: Vec<Vec<String>> = vec![];
         for _r in 0..n {
@@ -63,7 +111,11 @@ fn gen(rng: &mut Rng, _i: usize) -> Case {
             l.push("FAR".into());
             links.push(l);
         }
-        // interleave: pick a replica with remaining elements, emit a batch of 1..3 of its elements
+        // interleave: pick a replica with remaining elements, emit a batch of 1..3 of its elements.
+        // `q` batches are only queued (no pull, hence no receive timeout before the next batch): runs of
+        // batches from different replicas are then consumed back to back, e.g. a replica's
+        // FlushAndRestart, then a watermark of another replica that does not move the frontier, then data
+        let qnum = *rng.pick(&[0u64, 0, 1, 2, 9]);
         let mut pos = vec![0usize; n];
         loop {
             let avail: Vec<usize> = (0..n).filter(|&r| pos[r] < links[r].len()).collect();
@@ -73,7 +125,9 @@ fn gen(rng: &mut Rng, _i: usize) -> Case {
             let r = *rng.pick(&avail);
             let k = if rng.chance(1, 2) { 1 } else { rng.range(1, 3) as usize };
             let end = (pos[r] + k).min(links[r].len());
-            let mut w = vec!["b".to_string(), r.to_string()];
+            let q = qrun < 8 && rng.chance(qnum, 10);
+            qrun = if q { qrun + 1 } else { 0 };
+            let mut w = vec![if q { "q" } else { "b" }.to_string(), r.to_string()];
             w.extend(links[r][pos[r]..end].iter().cloned());
             c.ops(w);
             pos[r] = end;
